@@ -1713,6 +1713,23 @@ def c09_eval(ctx):
     ee = ctx.repo.func(UT, "eval_expr")
     ps = [c for c in calls_in(ee) if call_name(c) == "ast.parse"]
     ctx.check(bool(ps) and kwarg(ps[0], "mode", 2) is not None and const_value(kwarg(ps[0], "mode", 2)) == "eval", ps[0] if ps else ee, "eval_expr parses in 'eval' mode (expressions only)")
+    # the value of the expression is handed back as computed: the caller truncates it (C09.BOUND); anything done to it
+    # here (rounding, ceil, clamping) changes the number of batches dispatched ahead
+    ge = cfg_of(ee)
+    rets = [r for r in nodes_of_type(ee, ast.Return)]
+    ctx.need(bool(rets), "eval_expr has no return")
+    for r in rets:
+        v = r.value
+        hops = 0
+        while isinstance(v, ast.Name) and hops < 4:
+            defs = [a for a in nodes_of_type(ee, (ast.Assign, ast.AugAssign, ast.AnnAssign)) if v.id in stores_to(a)]
+            if len(defs) != 1 or not isinstance(defs[0], ast.Assign):
+                break
+            v = defs[0].value
+            hops += 1
+        ok = isinstance(v, ast.Call) and call_name(v) == "eval_" and len(v.args) == 1 and any(call_name(c) == "ast.parse" for c in calls_in(v))
+        ctx.check(ok, r, "eval_expr returns the evaluated expression unmodified",
+                  "eval_expr returns `%s`, not the plain value of the expression (a rounded / re-bound value changes how many batches are dispatched ahead)" % unparse(r.value, 60))
     # nobody calls eval/exec/compile in the non-vendored package
     n = 0
     import builtins as _b
@@ -1732,6 +1749,53 @@ def c09_eval(ctx):
 # ---------------------------------------------------------------------------
 # C16 clauses
 # ---------------------------------------------------------------------------
+
+def c01_status_mode(ctx):
+    """The completion tracker works in one of two modes, chosen by ONE capability of the backend
+    (`supports_retrieve_callback`): results registered by the callback (status starts PENDING, `get_result` hands out the
+    stored result) or retrieved by the consumer (status stays None, `get_result` retrieves). The retrieval loop pops a
+    tracker as soon as its status is not PENDING - so the constructor, `get_result` and the callback must take the
+    decision from the same flag with the same polarity; a sibling flag (`supports_timeout`) coincides for the built-in
+    backends only."""
+    FLAG = "supports_retrieve_callback"
+    n = 0
+    for q in ("BatchCompletionCallBack.__init__", "BatchCompletionCallBack.get_result", "BatchCompletionCallBack.__call__"):
+        f = F(ctx, q)
+        g = cfg_of(f)
+        flags = set()
+        for t_ in [x.test for x in nodes_of_type(f, (ast.If, ast.While))] + [x.test for x in walk_local(f) if isinstance(x, ast.IfExp)]:
+            for a_ in ast.walk(t_):
+                if isinstance(a_, ast.Attribute) and a_.attr.startswith("supports_"):
+                    flags.add(a_.attr)
+        n += len(flags)
+        ctx.check(flags == {FLAG}, f, "%s chooses the mode by backend.%s only" % (q.split(".")[-1], FLAG),
+                  "%s chooses the retrieval mode by %s: for a backend on which that differs from %s the tracker starts in the wrong state (a running batch is popped as finished, or a finished one is waited for for ever)"
+                  % (q.split(".")[-1], sorted(flags) or "no capability test", FLAG), key="%s::%s::mode flag" % (PAR, q))
+    init = F(ctx, "BatchCompletionCallBack.__init__")
+    gi = cfg_of(init)
+    sts = assigns_to(init, "self.status")
+    ctx.need(len(sts) >= 1, "BatchCompletionCallBack.__init__ does not initialise the status")
+    for a in sts:
+        facts = {(str(t), p) for (t, p) in gi.fact_set(gi.nodes_of(a))}
+        on = any(t.endswith("." + FLAG) and p for (t, p) in facts)
+        off = any(t.endswith("." + FLAG) and not p for (t, p) in facts)
+        v = unparse(a.value)
+        if v == "TASK_PENDING":
+            ctx.check(on and not off, a, "the status starts PENDING exactly when the callback registers the outcome", "status = TASK_PENDING is set under %s" % sorted(facts))
+        elif v == "None":
+            ctx.check(off and not on, a, "the status stays None exactly when the consumer retrieves the result itself", "status = None is set under %s" % sorted(facts))
+        else:
+            ctx.bad(a, "initial status %s is neither TASK_PENDING nor None" % v)
+    gr = F(ctx, "BatchCompletionCallBack.get_result")
+    gg = cfg_of(gr)
+    direct = [r for r in nodes_of_type(gr, ast.Return) if isinstance(r.value, ast.Call) and call_name(r.value) == "self._return_or_raise"]
+    retr = [c for c in calls_in(gr) if call_attr(c) == "retrieve_result"]
+    ctx.need(bool(direct) and bool(retr), "get_result: stored-result return / retrieve_result call not found")
+    for c in retr:
+        facts = {(str(t), p) for (t, p) in gg.fact_set(gg.nodes_of(c))}
+        ctx.check(any(t.endswith("." + FLAG) and not p for (t, p) in facts), c, "the consumer retrieves the result itself only when the callback does not", "retrieve_result is reached under %s" % sorted(facts))
+    ctx.floor(n, 3, "mode decisions of the completion tracker")
+
 
 def c16_running(ctx):
     f = F(ctx, "Parallel._reset_run_tracking")
@@ -1777,6 +1841,26 @@ def c16_running(ctx):
         ctx.check(ok, cl[0] if cl else fn, "%s clears _running on every way out (normal end, error, generator close)" % q,
                   "%s can be left (normal end, exception or GeneratorExit) without clearing _running: every later call on the same object is rejected as 'already running'" % q,
                   key=None if cl else "%s::%s::finally clears _running" % (PAR, q))
+        # a generator can be left at every `yield` (close(), garbage collection, throw()): each one lies inside a try whose
+        # `finally` - or whose handlers for GeneratorExit / BaseException, on every path - clears the flag. The flag is
+        # already set when the body starts (test-and-set in __call__), so a suspension point outside that region leaks it.
+        for y in [n_ for n_ in walk_local(fn) if isinstance(n_, (ast.Yield, ast.YieldFrom))]:
+            covered = bool(cl) and gq.every_path_to(gq.nodes_of(y), gq.nodes_of_all(cl))   # already cleared on the way there (the drain after the finally)
+            for a_ in ancestors(y):
+                if a_ is fn:
+                    break
+                if isinstance(a_, ast.Try):
+                    if any(x is c_ for c_ in cl for st_ in a_.finalbody for x in ast.walk(st_)) and not in_block(y, a_.finalbody):
+                        covered = True
+                        break
+                    if in_block(y, a_.body):
+                        hs_ = [h_ for h_ in a_.handlers if h_.type is None or handler_catches(h_, ["GeneratorExit"])]
+                        if hs_ and cl and gq.every_path_from(gq.nodes_of(hs_[0]), gq.nodes_of_all(cl), to={gq.exit, gq.xexit}):
+                            covered = True
+                            break
+            ctx.check(covered, y, "%s: the generator cannot be left at `%s` without clearing _running" % (q.split(".")[-1], unparse(y, 40)),
+                      "%s suspends at `%s` outside the region whose finally / handlers clear _running: a generator closed or dropped there leaves the Parallel object 'already running' for ever"
+                      % (q.split(".")[-1], unparse(y, 40)))
     # who may clear the flag: only the end of a run
     n_clear = 0
     for fn in _par_methods(ctx):
